@@ -9,8 +9,9 @@
   `finite_differences` (any dilation). The sign convention of the Lie bracket is the code's:
   `lie_bracket(v, u) = Jac(v) u − Jac(u) v`.
 
-  Not proved here: `C12_bspline_mode` belongs to C14 (the B-spline weights are taken as given); the
-  B-spline branch is tied by correspondence and an independent analytic oracle. `C12_jacdet_perm`:
+  Not proved here: `C12_bspline_mode` (values = analytic spline derivatives) belongs to C14 (the B-spline
+  weights are taken as given); the dictionary logic of the B-spline branch IS proved (`*_bspline`), its
+  values are tied by correspondence and an independent analytic oracle. `C12_jacdet_perm`:
   the permutation fallback of `jacobian_det` is dead code (D outside {2, 3} is rejected earlier).
 
   OBLIGATIONS: C12_fd_affine_forward C12_fd_affine_backward C12_fd_affine_central
@@ -19,6 +20,7 @@
     C12_jacdet_2 C12_jacdet_3 C12_div C12_curl C12_lie_affine
     C12_jacobian_affine_2 C12_jacobian_affine_3 C12_div_curl_affine_2 C12_div_curl_affine_3
     C12_second_quadratic C12_mixed_symmetric C12_subset C12_subset_flow
+    C12_subset_bspline C12_subset_flow_bspline C12_mixed_symmetric_bspline
 
 -/
 import Deepali.Proofs.FDCalc
@@ -380,5 +382,46 @@ theorem C12_subset_flow {A : Type} (step : Fin D → A → A) (u : Fin D → A) 
         = assoc (i, k) (flowDerivatives (fun i keys => spatialDerivativesFD step (u i) keys) which') := by
   rw [flowDerivatives_spec step u which i k hk hne, flowDerivatives_spec step u which' i k hk' hne]
   exact ⟨rfl, rfl⟩
+
+/-! ### B-spline branch (dictionary logic; the B-spline derivative values `deriv code` are given, C14) -/
+
+/-- `spatial_derivatives(mode="bspline")` (after fix 360bf64): every requested key is returned, with the
+    value computed for its sorted code, whatever else is requested — so a subset request returns the
+    same values as a full request. No condition on the key. -/
+theorem C12_subset_bspline {A : Type} (deriv : DKey D → A) (which which' : List (DKey D)) (k : DKey D)
+    (hk : k ∈ which) (hk' : k ∈ which') :
+    assoc k (spatialDerivativesBSpline deriv which) = some (some (deriv (sortKey k))) ∧
+    assoc k (spatialDerivativesBSpline deriv which) = assoc k (spatialDerivativesBSpline deriv which') := by
+  rw [spatialDerivativesBSpline_spec deriv which k hk, spatialDerivativesBSpline_spec deriv which' k hk']
+  exact ⟨rfl, rfl⟩
+
+/-- the same through `flow_derivatives(mode="bspline")`. -/
+theorem C12_subset_flow_bspline {A : Type} (deriv : Fin D → DKey D → A) (which which' : List (FKey D))
+    (i : Fin D) (k : DKey D) (hk : (i, k) ∈ which) (hk' : (i, k) ∈ which') :
+    assoc (i, k) (flowDerivatives (fun i keys => spatialDerivativesBSpline (deriv i) keys) which)
+        = some (some (deriv i (sortKey k))) ∧
+    assoc (i, k) (flowDerivatives (fun i keys => spatialDerivativesBSpline (deriv i) keys) which)
+        = assoc (i, k) (flowDerivatives (fun i keys => spatialDerivativesBSpline (deriv i) keys) which') := by
+  rw [flowDerivativesBSpline_spec deriv which i k hk, flowDerivativesBSpline_spec deriv which' i k hk']
+  exact ⟨rfl, rfl⟩
+
+/-- mixed derivatives are symmetric in B-spline mode: requested keys that are permutations of each other
+    (same sorted key, e.g. "xy" / "yx") are both present and carry the same value — in
+    `spatial_derivatives` and in `flow_derivatives`. -/
+theorem C12_mixed_symmetric_bspline {A : Type} :
+    (∀ (deriv : DKey D → A) (which : List (DKey D)) (k k' : DKey D), k ∈ which → k' ∈ which →
+        sortKey k = sortKey k' →
+        (assoc k (spatialDerivativesBSpline deriv which)).isSome ∧
+        assoc k (spatialDerivativesBSpline deriv which) = assoc k' (spatialDerivativesBSpline deriv which)) ∧
+    (∀ (deriv : Fin D → DKey D → A) (which : List (FKey D)) (i : Fin D) (k k' : DKey D), (i, k) ∈ which →
+        (i, k') ∈ which → sortKey k = sortKey k' →
+        assoc (i, k) (flowDerivatives (fun i keys => spatialDerivativesBSpline (deriv i) keys) which)
+          = assoc (i, k') (flowDerivatives (fun i keys => spatialDerivativesBSpline (deriv i) keys) which)) := by
+  constructor
+  · intro deriv which k k' hk hk' hs
+    rw [spatialDerivativesBSpline_spec deriv which k hk, spatialDerivativesBSpline_spec deriv which k' hk', hs]
+    exact ⟨rfl, rfl⟩
+  · intro deriv which i k k' hk hk' hs
+    rw [flowDerivativesBSpline_spec deriv which i k hk, flowDerivativesBSpline_spec deriv which i k' hk', hs]
 
 end Deepali
